@@ -83,15 +83,48 @@ theorem outside_error (carrier : Carrier) (conv : Conv) (dt : DataType) (ex cl :
   simp [hv]
 
 /-- **conversions that are not evaluated (FORM, general RAT_FUNC) never cause a limit error**, for any declared
-    limits representable as finite `f64` values. -/
+    limits representable as finite `f64` values. General = everything but the invertible linear case `(b·x + c) / f` with
+    `b ≠ 0` and `f ≠ 0`: the constant function `b = 0` included (see `constant_ratfunc_never_errors`). -/
 theorem not_evaluated_never_errors (carrier : Carrier) (dt : DataType) (ex : Rat × Rat)
     (h1 : -maxF64 ≤ ex.1) (h2 : ex.2 ≤ maxF64) :
     reportsError carrier .form dt ex = some false ∧
-    ∀ a b c d e f : Rat, ¬(a = 0 ∧ d = 0 ∧ e = 0 ∧ f ≠ 0) →
+    ∀ a b c d e f : Rat, ¬(a = 0 ∧ d = 0 ∧ e = 0 ∧ f ≠ 0 ∧ b ≠ 0) →
       reportsError carrier (.ratFunc (some (a, b, c, d, e, f))) dt ex = some false := 
   ⟨inside_no_error carrier .form dt ex _ (calcLimits_form dt) h1 h2,
    fun a b c d e f hn =>
     inside_no_error carrier _ dt ex _ (calcLimits_ratFunc_general a b c d e f dt hn) h1 h2⟩
+
+/-- `COEFFS 0 0 c 0 0 f` (a constant; nothing to invert) is not evaluated: no limit error whatever is declared. Before the
+    fix recorded in DESIGN 9.4 the code divided by `b = 0` here and reported every declared pair against NaN limits. -/
+theorem constant_ratfunc_never_errors (carrier : Carrier) (dt : DataType) (c f : Rat) (ex : Rat × Rat)
+    (h1 : -maxF64 ≤ ex.1) (h2 : ex.2 ≤ maxF64) :
+    reportsError carrier (.ratFunc (some (0, 0, c, 0, 0, f))) dt ex = some false :=
+  (not_evaluated_never_errors carrier dt ex h1 h2).2 0 0 c 0 0 f (fun h => h.2.2.2.2 rfl)
+
+/-- the model never answers "cannot follow" any more -/
+theorem calcLimits_total (conv : Conv) (dt : DataType) : ∃ cl, calcLimits conv dt = some cl := by
+  rcases h : datatypeLimits dt with ⟨lo, hi⟩
+  cases conv with
+  | absent => exact ⟨_, rfl⟩
+  | direct => exact ⟨_, rfl⟩
+  | form => exact ⟨_, rfl⟩
+  | linear o =>
+    cases o with
+    | none => exact ⟨_, rfl⟩
+    | some p =>
+      obtain ⟨a, b⟩ := p
+      rw [calcLimits_linear]
+      split <;> exact ⟨_, rfl⟩
+  | ratFunc o =>
+    cases o with
+    | none => exact ⟨_, rfl⟩
+    | some p =>
+      obtain ⟨a, b, c, d, e, f⟩ := p
+      by_cases hc : a = 0 ∧ d = 0 ∧ e = 0 ∧ f ≠ 0 ∧ b ≠ 0
+      · obtain ⟨rfl, rfl, rfl, hf, hb⟩ := hc
+        rw [calcLimits_ratFunc_linear b c f hb hf]
+        split <;> exact ⟨_, rfl⟩
+      · exact ⟨_, calcLimits_ratFunc_general a b c d e f dt hc⟩
 
 /-! ## non-vacuity -/
 example : calcLimits (.linear (some (-1, 0))) .ubyte = some (-255, 0) := by
